@@ -237,7 +237,14 @@ pub fn run(tier: Tier, replay: Option<Value>) -> ! {
                 }
                 // pairs outside the top-level context: one run of 6 iterations (a leak is linear in N)
                 let pair_elsewhere = ci >= 1 && s.len() == 2;
-                let ns_here: Vec<usize> = if pair_elsewhere { vec![tier.pick(6, 50)] } else { ns.clone() };
+                // quick: top-level pairs run 2 and 16 times, single leaves 2 and 50 times
+                let ns_here: Vec<usize> = if pair_elsewhere {
+                    vec![tier.pick(6, 50)]
+                } else if tier == Tier::Quick && s.len() == 2 {
+                    vec![2, 16]
+                } else {
+                    ns.clone()
+                };
                 for &n in &ns_here {
                     if n == 500 && s.len() > 1 {
                         continue;
@@ -308,7 +315,7 @@ pub fn run(tier: Tier, replay: Option<Value>) -> ! {
     }
     rep.set("leaves", LEAVES.len() as u64);
     rep.rule = format!(
-        "all sequences of <= {} commands over {} leaves ({} fault leaves: redirect errors, unknown commands, bad substitution, readonly, return/break/continue out of nested constructs, failing functions with temporary assignments, failing source/here-doc/$()/pipeline/background/process substitution) each run in {} contexts (top level; body of a function called with arguments and a temporary assignment; sourced file with arguments; function run as DEBUG-trap / ERR-trap handler; function called from a loop), repeated N in {{2, 50{}}} times (pairs outside the top-level context: N = 6 in the quick tier) in one in-process shell, followed each time by a probe of ${{#FUNCNAME[@]}} $# $* and the temporary/local names; compared with the state after one iteration",
+        "all sequences of <= {} commands over {} leaves ({} fault leaves: redirect errors, unknown commands, bad substitution, readonly, return/break/continue out of nested constructs, failing functions with temporary assignments, failing source/here-doc/$()/pipeline/background/process substitution) each run in {} contexts (top level; body of a function called with arguments and a temporary assignment; sourced file with arguments; function run as DEBUG-trap / ERR-trap handler; function called from a loop), repeated N in {{2, 50{}}} times (quick tier: top-level pairs N = 2 and 16, pairs in the other contexts N = 6) in one in-process shell, followed each time by a probe of ${{#FUNCNAME[@]}} $# $* and the temporary/local names; compared with the state after one iteration",
         tier.pick(2, 3),
         LEAVES.len(),
         LEAVES.iter().filter(|l| l.0.starts_with("F:")).count(),
